@@ -240,7 +240,12 @@ func (s *Sched) Go(name string, f func()) {
 			default:
 			}
 		}()
-		Yield("task:" + name)
+		// Always park here, also when the root goroutine has not reached Run
+		// yet: the root can be descheduled between its go statement and
+		// Run's running.Store(true) (time slice, GC assist); a conditional
+		// Yield would then let this task start unscheduled and the run's
+		// step count and digest would depend on that accident.
+		s.yield("task:" + name)
 		f()
 	}()
 }
